@@ -15,7 +15,7 @@
        Spec.well_typed, established by every sequential history from the empty store, and
        re-established by every run).  [C08_untyped_world_witness] shows the hypothesis is needed:
        without it a call stops at [Bad] and [finished] is false. *)
-From HS Require Import Base PyVal FS Ops Sched Spec Bracket.
+From HS Require Import Base PyVal FS Ops Sched Spec Bracket SchedCV.
 
 (* every API program, run as any thread i, for EVERY admissible answer to every operation
    (every value read, every error at every fault site but flock): acquires only locks ranked
@@ -218,3 +218,182 @@ Proof.
   split; [apply succs_nil_stuck; vm_compute; reflexivity | vm_compute; reflexivity].
 Qed.
 Print Assumptions C08_untyped_world_witness.
+
+
+(* ====================================================================================
+   Extension: condition variables modelled faithfully (SchedCV.v)
+   ==================================================================================== *)
+(* C08cv — extension of C08: the condition variables of the four identifier lists modelled
+   faithfully (one condition per list shared by all its identifiers; notify() wakes ONE waiter,
+   chosen arbitrarily; a woken waiter re-tests and may go back to sleep), and no wake-up is lost.
+
+   GENERAL theorems (any number of threads, any calls, any schedule, any choice of the woken
+   waiter, with or without faults), proved in SchedCV.v on top of Bracket.v; statements are
+   restated in full so that a weakened lemma no longer fits.  The semantics is
+   [SchedCV.cvstep ps fl] ([fl] = fault steps allowed); see the header of SchedCV.v.
+   Scope as for C08: faults are every fault site except flock; the start world holds no lock and
+   its reference files are typed. *)
+
+
+(* no lost wake-up, no deadlock: a reachable configuration in which no step is possible (no
+   thread can sleep, execute, notify or fail) has every call returned, no lock held and nobody
+   asleep on a condition *)
+Theorem C08cv_no_lost_wakeup :
+  forall (fl : bool) (calls : list call) (w0 : world) (C : cvcfg),
+    locks w0 = [] -> refs_typed (fs w0) ->
+    cvreachable (map api calls) fl w0 C -> cvstuck (map api calls) fl C ->
+    finished (map api calls) (fst C) = true /\
+    locks (snd (fst C)) = [] /\
+    nobody_asleep (snd C) /\
+    refs_typed (fs (snd (fst C))).
+Proof. exact @cv_no_lost_wakeup. Qed.
+Print Assumptions C08cv_no_lost_wakeup.
+
+(* every run is finite: no infinite sequence of steps (sleeping and being woken included) *)
+Theorem C08cv_terminates :
+  forall (A : Type) (ps : list (prog A)) (fl : bool) (C : cvcfg),
+    Acc (fun C' C0 : cvcfg => cvstep ps fl C0 C') C.
+Proof. exact @cv_terminates. Qed.
+Print Assumptions C08cv_terminates.
+
+(* the invariant behind it, for any pool of bracketed programs: a sleeper's next operation is the
+   Acquire it sleeps on, and if somebody sleeps on the condition of class k then an identifier of
+   class k is held or an Awake thread is about to (re-)test an Acquire of class k *)
+Theorem C08cv_invariant :
+  forall (A : Type) (ps : list (prog A)) (fl : bool) (w0 : world) (C : cvcfg),
+    pool_ok ps -> locks w0 = [] -> refs_typed (fs w0) -> cvreachable ps fl w0 C ->
+    Inv ps (fst C) /\ length (snd C) = length ps /\
+    (forall (i : nat) (cls : lockcls), nth_error (snd C) i = Some (Asleep cls) ->
+       is_list_cls cls = true /\
+       exists (x : ident) (k : ans -> prog A),
+         residual ps (fst C) i = Some (Vis (Acquire cls x) k)) /\
+    (forall (i : nat) (cls : lockcls), nth_error (snd C) i = Some (Asleep cls) ->
+       (exists x : ident, In (cls, x) (locks (snd (fst C)))) \/
+       (exists (j : nat) (x : ident) (k : ans -> prog A),
+          nth_error (snd C) j = Some Awake /\
+          residual ps (fst C) j = Some (Vis (Acquire cls x) k))).
+Proof. exact @CInv_reachable. Qed.
+Print Assumptions C08cv_invariant.
+
+(* relation to Sched.v: without faults a run projects to a schedule of Sched.v (erase the sleep
+   steps) ... *)
+Theorem C08cv_project :
+  forall (A : Type) (ps : list (prog A)) (fl : bool) (w0 : world) (C : cvcfg),
+    fl = false -> cvreachable ps fl w0 C ->
+    exists sched : list nat, exec ps sched (init_cfg ps w0) = Some (fst C).
+Proof. exact @cv_project. Qed.
+Print Assumptions C08cv_project.
+
+(* ... with faults, to a run of Bracket.v's [gstep] ... *)
+Theorem C08cv_project_faults :
+  forall (A : Type) (ps : list (prog A)) (fl : bool) (w0 : world) (C : cvcfg),
+    cvreachable ps fl w0 C -> reachable ps w0 (fst C).
+Proof. exact @cv_reachable_gstep. Qed.
+Print Assumptions C08cv_project_faults.
+
+(* ... and the final configurations of the faithful semantics are final configurations of
+   Sched.v reached by a schedule of Sched.v: what the menus establish for every [exec]-reachable
+   [stuck] configuration holds for them *)
+Theorem C08cv_final_is_sched_final :
+  forall (calls : list call) (w0 : world) (C : cvcfg),
+    locks w0 = [] -> refs_typed (fs w0) ->
+    cvreachable (map api calls) false w0 C -> cvstuck (map api calls) false C ->
+    exists sched : list nat,
+      exec (map api calls) sched (init_cfg (map api calls) w0) = Some (fst C) /\
+      stuck (map api calls) (fst C).
+Proof. exact @cv_final_is_sched_final. Qed.
+Print Assumptions C08cv_final_is_sched_final.
+
+(* the executable scheduler used for the witnesses below only produces steps of the semantics *)
+Theorem C08cv_cvdo_sound :
+  forall (A : Type) (ps : list (prog A)) (fl : bool) (m : move) (C C' : cvcfg),
+    cvdo ps fl m C = Some C' -> cvstep ps fl C C'.
+Proof. exact @cvdo_sound. Qed.
+Print Assumptions C08cv_cvdo_sound.
+
+(* ---------- non-vacuity ---------- *)
+
+Definition cv_w : world :=
+  match run_history empty_world [CStore (Some 1) SrcPath 7 1 VSzNone VCkNone;
+                                 CStore (Some 2) SrcPath 8 1 VSzNone VCkNone] with
+  | Some (w, _) => w
+  | None => empty_world
+  end.
+
+Lemma cv_w_ok : locks cv_w = [] /\ refs_typed (fs cv_w).
+Proof.
+  apply (@run_history_empty_ok [CStore (Some 1) SrcPath 7 1 VSzNone VCkNone;
+                                CStore (Some 2) SrcPath 8 1 VSzNone VCkNone] cv_w
+           [Val (VMeta 7 1); Val (VMeta 8 1)]).
+  vm_compute. reflexivity.
+Qed.
+
+Definition cv_calls : list call := [CDelete 1; CDelete 2; CDelete 1; CDelete 2].
+
+(* The dangerous scenario really occurs, and resolves.  Threads 0 and 1 take the object-pid
+   entries of pids 1 and 2; threads 2 and 3 go to sleep on the ONE condition of that list,
+   waiting for pid 1 and pid 2.  Thread 0 completes; its notify wakes thread 3 — the WRONG waiter:
+   pid 2 is still held, so thread 3 re-tests and sleeps again.  In the configuration [Cmid] thread
+   2 is asleep although ITS identifier (pid 1) is free, and the notify that was meant for it has
+   been consumed.  It is not stranded: pid 2 is still held, thread 1 completes and notifies;
+   thread 2 is woken, runs, notifies; thread 3 is woken and runs.  All four calls return, no lock
+   is held, nobody is asleep. *)
+Example C08cv_wrong_waiter_woken :
+  exists Cmid Cend : cvcfg,
+    locks cv_w = [] /\ refs_typed (fs cv_w) /\
+    cvreachable (map api cv_calls) false cv_w Cmid /\
+    snd Cmid = [Awake; Awake; Asleep LObjPid; Asleep LObjPid] /\
+    locks (snd (fst Cmid)) = [(LObjPid, IPid 2)] /\
+    cvreachable (map api cv_calls) false cv_w Cend /\
+    cvstuck (map api cv_calls) false Cend /\
+    results (map api cv_calls) (fst Cend)
+      = [Some (Val VUnit); Some (Val VUnit);
+         Some (Exn EPidRefsDoesNotExist); Some (Exn EPidRefsDoesNotExist)] /\
+    finished (map api cv_calls) (fst Cend) = true /\
+    locks (snd (fst Cend)) = [] /\ snd Cend = [Awake; Awake; Awake; Awake].
+Proof.
+  pose (ps := map api cv_calls).
+  pose (ms1 := [MStep 0 []; MStep 1 []; MStep 2 []; MStep 3 []]
+               ++ repeat (MStep 0 [3]) 26 ++ [MStep 3 []]).
+  pose (ms2 := repeat (MStep 1 [2]) 26 ++ repeat (MStep 2 []) 5 ++ repeat (MStep 3 []) 5).
+  destruct (cvrun ps false ms1 (cvinit ps cv_w)) as [Cmid|] eqn:E1;
+    [|vm_compute in E1; discriminate].
+  destruct (cvrun ps false ms2 Cmid) as [Cend|] eqn:E2;
+    [|vm_compute in E1; inversion E1; subst Cmid; vm_compute in E2; discriminate].
+  exists Cmid, Cend. destruct cv_w_ok as [H1 H2].
+  assert (R1 : cvreachable ps false cv_w Cmid).
+  { eapply cvrun_reachable; [apply cvr_init | exact E1]. }
+  assert (R2 : cvreachable ps false cv_w Cend).
+  { eapply cvrun_reachable; [exact R1 | exact E2]. }
+  split; [exact H1|]. split; [exact H2|]. split; [exact R1|].
+  vm_compute in E1. inversion E1; subst Cmid. clear E1 R1.
+  split; [reflexivity|]. split; [reflexivity|]. split; [exact R2|].
+  vm_compute in E2. inversion E2; subst Cend. clear E2 R2.
+  split; [apply finished_cvstuck; vm_compute; reflexivity|].
+  vm_compute. auto.
+Qed.
+Print Assumptions C08cv_wrong_waiter_woken.
+
+(* with a fault: two deletes of the same pid; thread 1 sleeps on the object-pid condition; thread
+   0's read of the pid reference fails, it returns OSError, its releases notify: nobody sleeps on
+   the reference-pid condition, thread 1 is woken by the object-pid one, runs and completes *)
+Example C08cv_faulted :
+  exists C : cvcfg,
+    cvreachable (map api [CDelete 1; CDelete 1]) true cv_w C /\
+    cvstuck (map api [CDelete 1; CDelete 1]) true C /\
+    results (map api [CDelete 1; CDelete 1]) (fst C) = [Some (Exn EOSError); Some (Val VUnit)] /\
+    finished (map api [CDelete 1; CDelete 1]) (fst C) = true /\
+    locks (snd (fst C)) = [] /\ snd C = [Awake; Awake].
+Proof.
+  pose (ps := map api [CDelete 1; CDelete 1]).
+  pose (ms := [MStep 0 []; MStep 1 []; MStep 0 []; MStep 0 []; MFault 0; MStep 0 []; MStep 0 []]
+              ++ repeat (MStep 1 []) 27).
+  destruct (cvrun ps true ms (cvinit ps cv_w)) as [C|] eqn:E;
+    [|vm_compute in E; discriminate].
+  exists C.
+  split; [eapply cvrun_reachable; [apply cvr_init | exact E]|].
+  vm_compute in E. inversion E; subst C. clear E.
+  split; [apply finished_cvstuck; vm_compute; reflexivity|].
+  vm_compute. auto.
+Qed.
+Print Assumptions C08cv_faulted.
